@@ -269,11 +269,14 @@ func main() {
 	defer cmd.VerifLogScope()()
 
 	nCollect, nFn, nExpr, nChain, nAssign := 500, 700, 350, 220, 300
+	nNf := 120
 	if *tier == "thorough" {
 		nCollect, nFn, nExpr, nChain, nAssign = 24000, 30000, 15000, 10000, 14000
+		nNf = 6000
 	}
 	if *nshards > 1 {
 		nCollect, nFn, nExpr, nChain, nAssign = nCollect / *nshards, nFn / *nshards, nExpr / *nshards, nChain / *nshards, nAssign / *nshards
+		nNf = nNf / *nshards
 	}
 	stats := map[string]int{}
 	distinct := map[string]bool{}
@@ -713,6 +716,23 @@ func main() {
 		note("h"+text+fmt.Sprint(es), nobs >= 3 && nstart >= 2)
 	}
 
+	// ---- 1f. non-finite values as ordinary values (judged in Go, see nonfinite.go)
+	var nfCases []nfCase
+	nfCases = append(nfCases, nfCollectCases(rng, nNf, stats)...)
+	nfCases = append(nfCases, nfAssignCases(rng, nNf+nNf/4, stats)...)
+	nfCases = append(nfCases, nfAuditionCases(rng, nNf*2/3, stats)...)
+	nfBad := 0
+	for _, c := range nfCases {
+		if !c.Ok {
+			nfBad++
+		}
+		if c.Pinned {
+			stats["nonfinite-pinned-nan"]++
+		}
+		note("n"+fmt.Sprint(c.Input), true)
+	}
+	stats["nonfinite-failing"] = nfBad
+
 	vh.WriteFile(*out, "cases.v",
 		"Definition collect_cases : list collect_case := "+vh.ListNL(collectItems)+".\n"+
 			"Definition fn_cases : list fn_case := "+vh.ListNL(fnItems)+".\n"+
@@ -720,7 +740,7 @@ func main() {
 			"Definition assign_cases : list assign_case := "+vh.ListNL(assignItems)+".\n"+
 			"Definition chain_cases : list chain_case := "+vh.ListNL(chainItems)+".\n")
 	vh.WriteJSON(*out, "cases.json", map[string]interface{}{
-		"collect": collectCases, "fn": fnCases, "expr": exprCases, "assign": assignCases, "chain": chainCases, "clause": clauseCases})
+		"collect": collectCases, "fn": fnCases, "expr": exprCases, "assign": assignCases, "chain": chainCases, "clause": clauseCases, "nonfinite": nfCases})
 	var samples []interface{}
 	if len(collectCases) > 0 {
 		samples = append(samples, map[string]interface{}{"kind": "collect", "case": collectCases[len(collectCases)/2]})
@@ -734,7 +754,7 @@ func main() {
 		samples = append(samples, map[string]interface{}{"kind": "chain", "config": c.Cfg, "events": c.Events, "final": c.Result.Vals})
 	}
 	vh.WriteJSON(*out, "summary.json", map[string]interface{}{
-		"collect": len(collectCases), "fn": len(fnCases), "expr": len(exprCases), "assign": len(assignCases), "chain": len(chainCases), "clause": len(clauseCases),
+		"collect": len(collectCases), "fn": len(fnCases), "expr": len(exprCases), "assign": len(assignCases), "chain": len(chainCases), "clause": len(clauseCases), "nonfinite": len(nfCases),
 		"cases": len(collectCases) + len(fnCases) + len(exprCases) + len(assignCases) + len(chainCases),
 		"distinct_nontrivial": nontriv, "stats": stats, "samples": samples,
 	})
